@@ -90,8 +90,21 @@ def run(chk):
     # ---- O18.2 the loader actually used -------------------------------------------------------
     load = prog.func(LOAD)
     yl = prog.func(YAML_LOAD)
+    # load and the private module-level helpers of its module it delegates to
+    scope, todo = [], [load]
+    while todo:
+        f = todo.pop()
+        if f in scope:
+            continue
+        scope.append(f)
+        for n in ast.walk(f.node):
+            if isinstance(n, ast.Call) and isinstance(n.func, ast.Name):
+                g = prog.functions.get(prog.resolve(f.module, n.func) or "")
+                if g is not None and g.cls is None and g.module is load.module and g.qual not in (ADD_PLUGINS,) and g.name.startswith("_"):
+                    todo.append(g)
+    scope_nodes = [n for f in scope for n in ast.walk(f.node)]
     call = None
-    for n in ast.walk(load.node):
+    for n in scope_nodes:
         if isinstance(n, ast.Call) and prog.resolve(load.module, n.func) == YAML_LOAD:
             call = n
     if call is None:
@@ -114,7 +127,7 @@ def run(chk):
         else:
             chk.ok("O18.2", load.qual, "the YAML reader is given COBalDLoader", node=call)
         # plugins are registered on the same loader
-        reg = [n for n in ast.walk(load.node) if isinstance(n, ast.Call) and prog.resolve(load.module, n.func) == ADD_PLUGINS]
+        reg = [n for n in scope_nodes if isinstance(n, ast.Call) and prog.resolve(load.module, n.func) == ADD_PLUGINS]
         for n in reg:
             args = list(n.args) + [k.value for k in n.keywords]
             if not any(prog.resolve(load.module, a) == LOADER for a in args if not isinstance(a, ast.Constant)):
